@@ -14,6 +14,8 @@ Definition parks (o : nat) (cp : nat * pc) : bool :=
   match parked_on (snd cp) with Some o' => Nat.eqb o o' | None => false end.
 Definition cnt (o : nat) (calls : list (nat * pc)) : nat := List.length (filter (parks o) calls).
 
+Arguments cnt : simpl never.
+
 Definition opark (p : option pc) : option nat := match p with Some x => parked_on x | None => None end.
 
 (* ---- counting over association lists ------------------------------------------------------------ *)
@@ -369,3 +371,154 @@ Ltac v_leaf3 :=
           | |- V (enter _ _) => apply V_enter
           end ].
 Ltac v_go3 := inv_go v_leaf3 t_V.
+
+(* ---- the sections of the calls ------------------------------------------------------------------------------ *)
+Lemma alive_frame : forall s s' o, s_ops s' = s_ops s -> op_alive s' o = op_alive s o.
+Proof. unfold op_alive. intros s s' o ->. reflexivity. Qed.
+
+(* re-parking a call on the same operation (or keeping it unparked) *)
+Lemma V_setcall_same : forall s c p', opark (aget Nat.eqb c (s_calls s)) = parked_on p' -> V s -> V (set_call c p' s).
+Proof.
+  intros s c p' Hp [H0 [H1 [H1' [HA [HB [HC HI]]]]]]. unfold V, set_call, op_alive in *. cbn. v_split; auto.
+  - apply (NoDup_keys_aset Nat.eqb nat_eqb_eq). exact H0.
+  - intros c' p o Hc Ho. rewrite (aget_aset Nat.eqb nat_eqb_eq) in Hc. destruct (Nat.eqb c' c) eqn:E.
+    + inversion Hc; subst p. rewrite Ho in Hp. destruct (aget Nat.eqb c (s_calls s)) as [q|] eqn:Eq; [|discriminate].
+      cbn in Hp. eapply HA; eassumption.
+    + eapply HA; eassumption.
+  - intros o x Ex. rewrite (cnt_aset_same _ _ _ _ H0 Hp). apply HB. exact Ex.
+Qed.
+
+Lemma V_emit : forall s o, V s -> V (emit o s).
+Proof. intros. eapply V_frame; [ | | | |eassumption]; reflexivity. Qed.
+
+Lemma V_ret_unparked : forall s c code, opark (aget Nat.eqb c (s_calls s)) = None -> V s -> V (ret c code s).
+Proof. intros s c code Hp HV. unfold ret. apply V_setcall_same; [exact Hp|]. apply V_emit. exact HV. Qed.
+
+Lemma V_stream_iter : forall s c o, opark (aget Nat.eqb c (s_calls s)) = Some o -> V s -> V (stream_iter c o s).
+Proof.
+  intros s c o Hp HV. unfold stream_iter. cbv zeta.
+  destruct (t_resp (get_task s (o_task (get_op s o)))); (apply V_setcall_same; [exact Hp|apply V_emit; exact HV]).
+Qed.
+
+(* attaching a so far unparked call to a registered operation *)
+Lemma V_attach : forall s c o p', parked_on p' = Some o ->
+  opark (aget Nat.eqb c (s_calls s)) = None -> op_alive s o = true -> V s ->
+  V (set_call c p' (upd_op o (fun y => y <| o_cleanup := None |> <| o_waiters ::= S |>) s)).
+Proof.
+  intros s c o p' Hp' Hp Ha [H0 [H1 [H1' [HA [HB [HC HI]]]]]]. unfold op_alive in Ha.
+  destruct (aget Nat.eqb o (s_ops s)) as [x0|] eqn:E0; [|discriminate].
+  unfold V, set_call, upd_op, op_alive in *. rewrite E0. cbn.
+  set (v := x0 <| o_cleanup := None |> <| o_waiters ::= S |>).
+  assert (Hkeys : map fst (aset Nat.eqb o v (s_ops s)) = map fst (s_ops s)).
+  { rewrite (map_fst_aset Nat.eqb nat_eqb_eq), E0. reflexivity. }
+  assert (Hcnt : forall o', cnt o' (aset Nat.eqb c p' (s_calls s)) = (cnt o' (s_calls s) + (if Nat.eqb o' o then 1 else 0))%nat).
+  { intro o'. pose proof (cnt_aset o' c p' (s_calls s) H0) as H.
+    assert (E1 : parks o' (c, match aget Nat.eqb c (s_calls s) with Some x => x | None => PDone end) = false).
+    { unfold parks. cbn. destruct (aget Nat.eqb c (s_calls s)) as [q|]; cbn in Hp; [rewrite Hp|]; reflexivity. }
+    assert (E2 : parks o' (c, p') = Nat.eqb o' o) by (unfold parks; cbn; rewrite Hp'; reflexivity).
+    rewrite E1, E2 in H. lia. }
+  v_split; auto.
+  - apply (NoDup_keys_aset Nat.eqb nat_eqb_eq). exact H0.
+  - rewrite Hkeys. exact H1.
+  - rewrite Hkeys. exact H1'.
+  - intros c' p o' Hc Ho. rewrite (aget_aset Nat.eqb nat_eqb_eq). destruct (Nat.eqb o' o) eqn:Eo; [reflexivity|].
+    rewrite (aget_aset Nat.eqb nat_eqb_eq) in Hc. destruct (Nat.eqb c' c) eqn:E.
+    + inversion Hc; subst p. rewrite Hp' in Ho. inversion Ho; subst. rewrite Nat.eqb_refl in Eo. discriminate.
+    + eapply HA; eassumption.
+  - intros o' x Ex. rewrite Hcnt. rewrite (aget_aset Nat.eqb nat_eqb_eq) in Ex. destruct (Nat.eqb o' o) eqn:Eo.
+    + apply Nat.eqb_eq in Eo. subst o'. inversion Ex; subst x. cbn. rewrite (HB _ _ E0). lia.
+    + rewrite (HB _ _ Ex). lia.
+  - intros o' x Ex Hc. rewrite (aget_aset Nat.eqb nat_eqb_eq) in Ex. destruct (Nat.eqb o' o) eqn:Eo.
+    + inversion Ex; subst x. cbn in Hc. congruence.
+    + eapply HC; eassumption.
+  - intros t x i o' Ex Hin. destruct (HI _ _ _ _ Ex Hin) as [y [Ey Hy]].
+    rewrite (aget_aset Nat.eqb nat_eqb_eq). destruct (Nat.eqb o' o) eqn:Eo.
+    + apply Nat.eqb_eq in Eo. subst o'. rewrite E0 in Ey. inversion Ey; subst y. exists v. auto.
+    + exists y. auto.
+Qed.
+
+Lemma set_call_emit_comm_V : forall s c p o, V (set_call c p s) -> V (set_call c p (emit o s)).
+Proof. intros. eapply V_frame; [ | | | |eassumption]; reflexivity. Qed.
+
+Lemma V_wait_execution_begin : forall s c o,
+  opark (aget Nat.eqb c (s_calls s)) = None -> op_alive s o = true -> V s -> V (wait_execution_begin c o s).
+Proof.
+  intros s c o Hp Ha HV. unfold wait_execution_begin, stream_iter. cbv zeta.
+  destruct (t_resp (get_task _ _)); apply set_call_emit_comm_V; (apply V_attach; [reflexivity|exact Hp|exact Ha|exact HV]).
+Qed.
+
+(* a parked call leaves its operation *)
+Lemma V_detach : forall s c o p', parked_on p' = None ->
+  opark (aget Nat.eqb c (s_calls s)) = Some o -> V s ->
+  V (set_call c p' (match o_waiters (get_op s o) with
+                    | O => panic "Invalid waiters count on operation" s
+                    | S n => upd_op o (fun y => y <| o_waiters := n |>) s
+                    end)).
+Proof.
+  intros s c o p' Hp' Hp [H0 [H1 [H1' [HA [HB [HC HI]]]]]].
+  destruct (aget Nat.eqb c (s_calls s)) as [q|] eqn:Eq; [|discriminate]. cbn in Hp.
+  pose proof (HA _ _ _ Eq Hp) as Ha. unfold op_alive in Ha.
+  destruct (aget Nat.eqb o (s_ops s)) as [x0|] eqn:E0; [|discriminate].
+  pose proof (cnt_pos _ _ _ _ Eq Hp) as Hpos. pose proof (HB _ _ E0) as Hw0.
+  unfold get_op. rewrite E0. destruct (o_waiters x0) as [|n] eqn:En; [lia|].
+  unfold V, set_call, upd_op, op_alive in *. rewrite E0. cbn.
+  set (v := x0 <| o_waiters := n |>).
+  assert (Hkeys : map fst (aset Nat.eqb o v (s_ops s)) = map fst (s_ops s)).
+  { rewrite (map_fst_aset Nat.eqb nat_eqb_eq), E0. reflexivity. }
+  assert (Hcnt : forall o', (cnt o' (aset Nat.eqb c p' (s_calls s)) + (if Nat.eqb o' o then 1 else 0) = cnt o' (s_calls s))%nat).
+  { intro o'. pose proof (cnt_aset o' c p' (s_calls s) H0) as H. rewrite Eq in H.
+    assert (E1 : parks o' (c, q) = Nat.eqb o' o) by (unfold parks; cbn; rewrite Hp; reflexivity).
+    assert (E2 : parks o' (c, p') = false) by (unfold parks; cbn; rewrite Hp'; reflexivity).
+    rewrite E1, E2 in H. lia. }
+  v_split; auto.
+  - apply (NoDup_keys_aset Nat.eqb nat_eqb_eq). exact H0.
+  - rewrite Hkeys. exact H1.
+  - rewrite Hkeys. exact H1'.
+  - intros c' p o' Hc Ho. rewrite (aget_aset Nat.eqb nat_eqb_eq). destruct (Nat.eqb o' o) eqn:Eo; [reflexivity|].
+    rewrite (aget_aset Nat.eqb nat_eqb_eq) in Hc. destruct (Nat.eqb c' c) eqn:E.
+    + inversion Hc; subst p. congruence.
+    + eapply HA; eassumption.
+  - intros o' x Ex. specialize (Hcnt o'). rewrite (aget_aset Nat.eqb nat_eqb_eq) in Ex. destruct (Nat.eqb o' o) eqn:Eo.
+    + apply Nat.eqb_eq in Eo. subst o'. inversion Ex; subst x. cbn. lia.
+    + rewrite (HB _ _ Ex). lia.
+  - intros o' x Ex Hc. rewrite (aget_aset Nat.eqb nat_eqb_eq) in Ex. destruct (Nat.eqb o' o) eqn:Eo.
+    + inversion Ex; subst x. cbn in Hc. specialize (HC _ _ E0 Hc). lia.
+    + eapply HC; eassumption.
+  - intros t x i o' Ex Hin. destruct (HI _ _ _ _ Ex Hin) as [y [Ey Hy]].
+    rewrite (aget_aset Nat.eqb nat_eqb_eq). destruct (Nat.eqb o' o) eqn:Eo.
+    + apply Nat.eqb_eq in Eo. subst o'. rewrite E0 in Ey. inversion Ey; subst y. exists v. auto.
+    + exists y. auto.
+Qed.
+
+Lemma msc_ops_indep : forall o s s',
+  s_ops s' = s_ops s -> s_now s' = s_now s -> s_cfg s' = s_cfg s ->
+  s_ops (maybe_start_cleanup o s') = s_ops (maybe_start_cleanup o s).
+Proof.
+  intros o s s' E1 E2 E3. unfold maybe_start_cleanup, op_alive, get_op, upd_op. rewrite E1, E2, E3.
+  destruct (aget Nat.eqb o (s_ops s)) as [x|] eqn:Ex; cbn; [|exact E1].
+  destruct (Nat.eqb (o_waiters x) 0 && negb (o_mayexist x)); [|exact E1].
+  destruct (o_cleanup x); cbn; [exact E1|]. rewrite ?E1, ?Ex. cbn. rewrite ?E1. reflexivity.
+Qed.
+
+Lemma msc_frame : forall o s, s_calls (maybe_start_cleanup o s) = s_calls s /\ s_nops (maybe_start_cleanup o s) = s_nops s
+  /\ s_tasks (maybe_start_cleanup o s) = s_tasks s.
+Proof.
+  intros o s. unfold maybe_start_cleanup.
+  destruct (op_alive s o && Nat.eqb (o_waiters (get_op s o)) 0 && negb (o_mayexist (get_op s o))); [|auto].
+  destruct (o_cleanup (get_op s o)); [auto|]. rewrite upd_op_eq. auto.
+Qed.
+
+Lemma V_stream_return : forall s c o code,
+  opark (aget Nat.eqb c (s_calls s)) = Some o -> V s -> V (stream_return c o code s).
+Proof.
+  intros s c o code Hp HV. unfold stream_return. cbv zeta.
+  set (s1 := match o_waiters (get_op s o) with O => _ | S n => _ end).
+  pose proof (V_detach s c o PDone eq_refl Hp HV) as H1. fold s1 in H1.
+  apply (V_maybe_start_cleanup _ o) in H1.
+  destruct (msc_frame o s1) as [F1 [F2 F3]]. destruct (msc_frame o (set_call c PDone s1)) as [G1 [G2 G3]].
+  eapply V_frame; [ | | | |exact H1]; cbn.
+  - rewrite F1, G1. reflexivity.
+  - symmetry. apply msc_ops_indep; reflexivity.
+  - rewrite F2, G2. reflexivity.
+  - rewrite F3, G3. reflexivity.
+Qed.
